@@ -2072,6 +2072,11 @@ func (tc *typechecker) checkCompositeLiteral(node *ast.CompositeLiteral, typ ref
 			}
 			if keyTi.IsConstant() {
 				key := tc.typedValue(keyTi, keyType)
+				if keyType.Kind() == reflect.Interface {
+					// Keys with different types are different keys, even if
+					// their types have the same underlying Go type.
+					key = [2]any{keyTi.Type, key}
+				}
 				if _, ok := hasKey[key]; ok {
 					panic(tc.errorf(node, "duplicate key %s in map literal", kv.Key))
 				}
